@@ -29,18 +29,26 @@ type shape struct {
 	path   string
 	hdrs   vnet.H
 	body   string
+	host   string // inner Host header (default: the origin's)
+	// tunnelOnly: the shape has no plain-proxying counterpart (the inner Host differs from the CONNECT
+	// authority), so only the two tunnel transports are compared
+	tunnelOnly bool
 }
 
 var tunnelShapes = []shape{
-	{"A-cacheable", "GET", "/a", nil, ""},
-	{"B-chunked-nostore", "GET", "/b", nil, ""},
-	{"C-404", "GET", "/c", nil, ""},
-	{"D-204", "GET", "/d", nil, ""},
-	{"E-head", "HEAD", "/a", nil, ""},
-	{"F-range", "GET", "/a", vnet.H{{"Range", "bytes=1-4"}}, ""},
-	{"G-post", "POST", "/g", nil, "payload"},
-	{"H-500", "GET", "/h", nil, ""},
-	{"I-headers", "GET", "/i", nil, ""},
+	{"A-cacheable", "GET", "/a", nil, "", "", false},
+	{"B-chunked-nostore", "GET", "/b", nil, "", "", false},
+	{"C-404", "GET", "/c", nil, "", "", false},
+	{"D-204", "GET", "/d", nil, "", "", false},
+	{"E-head", "HEAD", "/a", nil, "", "", false},
+	{"F-range", "GET", "/a", vnet.H{{"Range", "bytes=1-4"}}, "", "", false},
+	{"G-post", "POST", "/g", nil, "payload", "", false},
+	{"H-500", "GET", "/h", nil, "", "", false},
+	{"I-headers", "GET", "/i", nil, "", "", false},
+	// exchanges that fail inside the proxy while carrying a request body: whatever becomes of the
+	// exchange, its body bytes must not be read as the next request
+	{"J-post-unusable-host", "POST", "/g", nil, "GET /a HTTP/1.1\r\nHost: " + originHost + "\r\n\r\n", "no such host", true},
+	{"K-post-origin-unreachable", "POST", "/k", nil, "0123456789abcdef", "", false},
 }
 
 func scriptTunnelOrigin(o *vnet.Origin, prefix string) {
@@ -49,13 +57,21 @@ func scriptTunnelOrigin(o *vnet.Origin, prefix string) {
 	o.Put(prefix+"/c", &vnet.Res{Name: "tc", Size: 12, Status: 404, Headers: vnet.H{{"Cache-Control", "no-store"}, {"X-C", "token-c"}, {"Content-Type", "text/x-c"}}})
 	o.Put(prefix+"/d", &vnet.Res{Name: "td", Size: 0, Status: 204, Headers: vnet.H{{"X-D", "token-d"}}})
 	o.Put(prefix+"/g", &vnet.Res{Name: "tg", Size: 7, Headers: vnet.H{{"Cache-Control", "no-store"}, {"Content-Type", "text/x-g"}}})
+	o.Put(prefix+"/k", &vnet.Res{Name: "tk", Size: 5, DialError: true})
 	o.Put(prefix+"/h", &vnet.Res{Name: "th", Size: 9, Status: 500, Headers: vnet.H{{"Content-Type", "text/x-h"}}})
 	o.Put(prefix+"/i", &vnet.Res{Name: "ti", Size: 20, Headers: vnet.H{{"Cache-Control", "max-age=600"}, {"X-One", "token-i"}, {"Set-Cookie", "i=1"}, {"Content-Type", "text/x-i"}}})
 }
 
 func rawOriginForm(method, path string, hdrs vnet.H, body string) string {
+	return rawOriginFormHost(method, path, hdrs, body, originHost)
+}
+
+func rawOriginFormHost(method, path string, hdrs vnet.H, body, host string) string {
+	if host == "" {
+		host = originHost
+	}
 	var b strings.Builder
-	b.WriteString(method + " " + path + " HTTP/1.1\r\nHost: " + originHost + "\r\nUser-Agent: vf\r\nAccept-Encoding: identity\r\n")
+	b.WriteString(method + " " + path + " HTTP/1.1\r\nHost: " + host + "\r\nUser-Agent: vf\r\nAccept-Encoding: identity\r\n")
 	for _, kv := range hdrs {
 		b.WriteString(kv[0] + ": " + kv[1] + "\r\n")
 	}
@@ -84,7 +100,13 @@ func summary(r *vnet.Resp) string {
 		hs = append(hs, k+"="+strings.Join(vs, "|"))
 	}
 	sort.Strings(hs)
-	return strconv.Itoa(r.Status) + " {" + strings.Join(hs, "; ") + "} body=" + strconv.Quote(r.Body)
+	body := r.Body
+	if r.Status == 502 {
+		// the proxy's own error page (no origin answer exists): http.Error appends a newline on the plain
+		// transport, the raw responder does not; the wording of that page is not relaying behaviour
+		body = strings.TrimRight(body, "\n")
+	}
+	return strconv.Itoa(r.Status) + " {" + strings.Join(hs, "; ") + "} body=" + strconv.Quote(body)
 }
 
 func scenarioTunnel(c *vrun.Ctx) {
@@ -132,13 +154,17 @@ func scenarioTunnel(c *vrun.Ctx) {
 					var r *vnet.Resp
 					switch mode {
 					case "plain":
+						if s.tunnelOnly {
+							r = &vnet.Resp{Err: "not applicable"}
+							break
+						}
 						r = env.srv.Do(rawRequest(s.method, prefix+s.path, s.hdrs, s.body))
 					case "tunnel-per-request":
 						t, cr := env.srv.OpenTunnel(originHost+":443", env.tlsConfig(originHost))
 						if t == nil {
 							r = cr
 						} else {
-							r = t.Do(rawOriginForm(s.method, prefix+s.path, s.hdrs, s.body))
+							r = t.Do(rawOriginFormHost(s.method, prefix+s.path, s.hdrs, s.body, s.host))
 							t.Close()
 						}
 					default:
@@ -150,7 +176,7 @@ func scenarioTunnel(c *vrun.Ctx) {
 							}
 							tun = t
 						}
-						r = tun.Do(rawOriginForm(s.method, prefix+s.path, s.hdrs, s.body))
+						r = tun.Do(rawOriginFormHost(s.method, prefix+s.path, s.hdrs, s.body, s.host))
 					}
 					results[mode] = append(results[mode], summary(r))
 				}
@@ -171,7 +197,7 @@ func scenarioTunnel(c *vrun.Ctx) {
 					c.Violation("C10/tunnel/depends-on-earlier-exchange/"+seq[i].name+"/after-"+prevName(seq, i), fmt.Sprintf("exchange %d (%s) differs between one kept-alive tunnel and a tunnel of its own:\n kept-alive: %s\n own tunnel: %s\n sequence: %s", i+1, seq[i].name, one, per, desc), nil)
 					break
 				}
-				if per != plain {
+				if per != plain && !seq[i].tunnelOnly {
 					c.SetCase(desc)
 					c.Violation("C10/tunnel/differs-from-plain/"+seq[i].name, fmt.Sprintf("exchange %d (%s) differs between a tunnel and plain proxying:\n tunnel: %s\n plain:  %s\n sequence: %s", i+1, seq[i].name, per, plain, desc), nil)
 					break
